@@ -32,6 +32,7 @@ type genState struct {
 	gcPhase  int          // rough: 0 idle, 1 scanned
 	inits    map[string]bool
 	nextInit int
+	qword    string
 }
 
 func randKey(r *hx.Rand, maxLen int) []byte {
@@ -165,9 +166,13 @@ func (g *genState) guardFor(tab int, id []byte) uint64 {
 func (g *genState) queryOp(src string, tab int) {
 	kinds := []string{"get", "list", "prefix", "lb", "all", "num", "rev"}
 	k := hx.Pick(g.r, kinds)
+	g.qword = "q"
+	if k != "num" && k != "rev" && g.r.Chance(g.weight(12, "C06", 6)) {
+		g.qword = "wq" // keep the watch channel of this query (C06)
+	}
 	switch k {
 	case "all", "num", "rev":
-		g.emit("q %s %d %s", src, tab, k)
+		g.emit("%s %s %d %s", g.qword, src, tab, k)
 		return
 	}
 	idx := hx.Pick(g.r, []string{"id", "u", "n", "n", "n", "rev", "lu", "ln", "ln"})
@@ -202,7 +207,7 @@ func (g *genState) queryOp(src string, tab int) {
 		default:
 			lk = g.randLKey()
 		}
-		g.emit("q %s %d %s %s %s", src, tab, k, idx, lkeyS(lk))
+		g.emit("%s %s %d %s %s %s", g.qword, src, tab, k, idx, lkeyS(lk))
 		return
 	}
 	var key []byte
@@ -236,7 +241,7 @@ func (g *genState) queryOp(src string, tab int) {
 		key = make([]byte, 8)
 		key[7] = byte(rv)
 	}
-	g.emit("q %s %d %s %s %s", src, tab, k, idx, hx.Hex(key))
+	g.emit("%s %s %d %s %s %s", g.qword, src, tab, k, idx, hx.Hex(key))
 }
 
 func (g *genState) writeOp() {
